@@ -15,6 +15,8 @@ def dispatch (prop : String) (ins outs : List String) : Verdict :=
   | "C06" => C06.run ins outs
   | "C13" => C13.run ins outs
   | "C20" => C20.run ins outs
+  | "C02" => C02.run ins outs
+  | "C08" => C08.run ins outs
   | _ => .bad ("unknown property " ++ prop)
 
 partial def loop (h : IO.FS.Stream) (out : IO.FS.Stream) (n : Nat) : IO Unit := do
